@@ -315,7 +315,8 @@ func genNodes(t *rapid.T, depth int, base string, shareable bool, used map[strin
 		nd.ViaGroup = rapid.IntRange(0, 2).Draw(t, "viagroup") == 0
 		nd.CS = rapid.IntRange(0, 2).Draw(t, "subcs") == 0
 		if depth > 0 {
-			nd.Children = genNodes(t, depth-1, full, !isShared && !strings.HasSuffix(p, "/"), used, ctr)
+			// (the key of a mounted app never ends in a slash - mounting trims it - except for the root prefix itself)
+			nd.Children = genNodes(t, depth-1, full, !isShared && full != "", used, ctr)
 		}
 		out = append(out, nd)
 	}
